@@ -14,7 +14,7 @@ func (x *Exec) doCall(st *State, ins *ssa.Call, site string) {
 	var args []Val
 	for _, a := range ins.Call.Args {
 		v := x.val(st, a)
-		if v.A != nil && v.S == "" && v.A.Kind == aHeapField && len(v.A.Path) == 0 {
+		if v.A != nil && v.S == "" && v.A.Kind == aHeapField && len(v.A.Path) == 0 && !isBuilder(v.A.Elem) {
 			// a pointer into a struct-valued field handed to a callee (&c.opts): modelled as a pointer to a separate,
 			// non-nil object (DESIGN 7: the taking function has an open frame; nothing is claimed about its exit state)
 			ip := x.declConst(st, "ip", x.cx.intSort())
@@ -1217,7 +1217,9 @@ func (x *Exec) traceCall(st *State, name string, args []Val, site string) {
 // atCallChecks emits the obligations "atcall <callee> [label] expr" of the unit's contract: expr must hold in the state in
 // which the unit calls callee (old() = the unit's entry state).
 func (x *Exec) atCallChecks(st *State, short string, seq int, calleeVars map[string]Val, site string, calleeCon *Contract) {
-	if x.con == nil || len(st.frames) != 1 {
+	// calls made by helpers and thunk literals executed in place count as calls of the unit (the clause is evaluated
+	// over the unit's own variables, invEnv)
+	if x.con == nil {
 		return
 	}
 	for i, cl := range x.con.AtCalls {
